@@ -219,6 +219,80 @@ PROPS["C20"] = {
     "assumptions": [],
 }
 
+PROPS["C08"] = {
+    "claim": "ids are a one-to-one interning: the index<->id lemma for every usize (no bound), and the interning laws for "
+             "symbolic strings through add_prefix / add_namespace / add_name_ns / name lookups, built-ins, parsing and Xot::clone",
+    "harnesses": [
+        H("h_c08_index_round_trip"),
+        H("h_c08_interning", {"LEN": 2}, {"LEN": 3}, shards={"quick": shard_product(("table", 3), ("l1", 2)), "thorough": shard_product(("table", 3), ("l1", 3))}),
+        H("h_c08_builtins_and_parse"),
+    ],
+    "bounds": {"quick": "index lemma: all 2^64 indices per id type; interning: 3 registrations of arbitrary strings of <=1 char (thorough <=2) "
+                        "per table; built-in ids; one parsed document with a symbolic letter as prefix / attribute / PI target",
+               "thorough": "same"},
+    "outside": "tables with more than 3 user registrations as symbolic pre-state (the index lemma carries the size dimension); "
+               "hashing (HashMap is summarised as a correct map)",
+    "assumptions": ["std HashMap behaves as a map (summarised as an association list with solver-decided key equality)"],
+}
+
+PROPS["C10"] = {
+    "claim": "whatever to_string accepts re-parses with the same expanded names (documents and subtrees serialised on their "
+             "own), and create_missing_prefixes (called on document, root or inner element, once and again after adding a node "
+             "in a new namespace) makes the tree serialisable without changing any name, attribute or content",
+    "harnesses": [
+        H("h_c10_names", shards={"quick": shard_product(("c0", 8), ("root", 2)), "thorough": shard_product(("c0", 8), ("root", 2), ("c1", 8))}),
+        H("h_c10_missing_prefixes", {"CFG": 4, "NSK": 2}, {"CFG": 5, "NSK": 3}, shards={"quick": shard_product(("c0", 4), ("target", 4)), "thorough": shard_product(("c0", 5), ("target", 4), ("c1", 5))}, budget=(900, 3000)),
+    ],
+    "bounds": {"quick": "3-level element chains, 8x8 declaration layouts, element names in {none,A,B}^3, attribute in {none,A}; "
+                        "create_missing_prefixes: 4x4 layouts, names in {none,A}^3, 4 call targets, two rounds",
+               "thorough": "5x5 layouts and {none,A,B}^3 for create_missing_prefixes"},
+    "outside": "fragments with several top-level elements; deeper trees",
+    "assumptions": ["HashSet iteration order (which decides the generated prefix names) is modelled as insertion order"],
+}
+
+PROPS["C15"] = {
+    "claim": "deduplicate_namespaces removes only declarations, keeps every expanded name / attribute / content, keeps the "
+             "tree serialisable and re-parseable to the same canonical form, and is idempotent",
+    "harnesses": [H("h_c15_dedup", {"CFG": 4, "NSK": 2}, {"CFG": 8, "NSK": 2}, shards={"quick": shard_product(("c0", 4), ("c1", 4)), "thorough": shard_product(("c0", 8), ("c1", 8))}, budget=(900, 3000))],
+    "bounds": {"quick": "4-level element chains with 4x4x4x3 declaration layouts (same namespace under several prefixes, prefix "
+                        "redeclared down the path, default namespace interleaved, xmlns=\"\"), names in {none,A}^3, a prefixed "
+                        "attribute in A at the bottom", "thorough": "8x8x8x3 layouts"},
+    "outside": "forks (sibling subtrees) and deeper chains",
+    "assumptions": [],
+}
+
+PROPS["C14"] = {
+    "claim": "CDATA-section elements, unescaped_gt and the XML declaration change only the spelling (output re-parses deep-equal "
+             "for all contents incl. ']' / '>' runs); indentation only adds whitespace-only text nodes and none inside mixed "
+             "content, xml:space=preserve scope or suppressed elements",
+    "harnesses": [
+        H("h_c14_cdata", {"N": 2}, {"N": 3}, shards={"quick": shard_product(("len", 2), ("cdata", 3)), "thorough": shard_product(("len", 3), ("cdata", 3))}),
+        H("h_c14_gt", {"N": 3}, {"N": 4}, shards={"quick": shard_product(("len", 3), ("decl", 3)), "thorough": shard_product(("len", 4), ("decl", 3))}),
+        H("h_c14_pretty", shards={"quick": shard_product(("xs_a", 3), ("xs_b", 3), ("mixed", 4)), "thorough": shard_product(("xs_a", 3), ("xs_b", 3), ("mixed", 4))}),
+    ],
+    "bounds": {"quick": "CDATA: text of <=2 symbolic chars (+1 in a child) under 3 CDATA-element sets x unescaped_gt; unescaped_gt: "
+                        "<=3 symbolic chars x 3 declaration settings; indentation: a 5-element tree with xml:space none/preserve/"
+                        "default on 3 levels, a symbolic text child at 4 positions, 3 suppress lists, document and element",
+               "thorough": "one more symbolic character"},
+    "outside": "doctype output; normalizers; longer runs of ']' and '>' than the bound",
+    "assumptions": [],
+}
+
+PROPS["C16"] = {
+    "claim": "token texts (with their space flags) concatenate to the string serialisation, pretty tokens with indentation / "
+             "newline applied give the pretty string, the Write entry point emits the same bytes, and the output-event stream "
+             "is what the tree dictates",
+    "harnesses": [
+        H("h_c16_tokens", shards={"quick": shard_product(("node", 2), ("cdata", 3), ("shadow", 3)), "thorough": shard_product(("node", 2), ("cdata", 3), ("shadow", 3))}),
+        H("h_c16_outputs", shards={"quick": shard_choose("shadow", 3), "thorough": shard_choose("shadow", 3)}),
+    ],
+    "bounds": {"quick": "one 8-node tree (attribute and text symbolic, an empty element re-declaring prefixes before a sibling that "
+                        "uses the outer binding, comment, PI), document and root element, 3 CDATA sets, unescaped_gt, suppress list",
+               "thorough": "same"},
+    "outside": "other tree shapes; deep indentation levels",
+    "assumptions": [],
+}
+
 PROPS["DBG"] = {
     "claim": "debug probes", "harnesses": [H("h_probe_tree"), H("h_probe_tostring"), H("h_probe_parse")],
     "bounds": {"quick": "-", "thorough": "-"}, "outside": "", "assumptions": [],
